@@ -24,27 +24,31 @@ import (
 // Shared scenario machinery for C09 (completeness after fetch/push) and C10 (refs only move forward).
 
 type netParams struct {
-	Op       string  `json:"op"` // fetch | push | pull | merge | fetch-pkg
-	N        int     `json:"n"`
-	BaseRows int     `json:"base_rows"`
-	Branches int     `json:"branches"`
-	Depth    int     `json:"depth"`
-	Force    string  `json:"force"` // "" | global | refspec
-	MaxPack  uint64  `json:"max_pack"`
-	HavesRT  int     `json:"haves_rt"`
-	Tags     bool    `json:"tags"`
-	FF       string  `json:"ff"`                  // merge mode: "" | no-ff | ff-only
-	Slow     bool    `json:"slow"`                // server trickles packfiles one byte per flush
-	Rel      string  `json:"rel,omitempty"`       // relation forced on the first branch
-	Shape    [][]int `json:"shape,omitempty"`     // explicit history shape; the single branch is "new" at the last commit
-	All      bool    `json:"all,omitempty"`       // fetch --all: the refspecs come from the remote's configuration
-	Narrow   bool    `json:"narrow,omitempty"`    // fetch: only the first branch's refspec is given; other branches and tags exist on the remote
-	TagSrc   string  `json:"tag_src,omitempty"`   // push: how the tag's source is spelled: "" (refs/tags/x) | short (x:refs/tags/x) | bare (x) | head (refs/heads/b0:refs/tags/x)
-	FailAt   int     `json:"fail_at,omitempty"`   // C09: a first attempt whose FailAt-th receiver-side store write fails, then the judged attempt
-	Tags2    bool    `json:"tags2,omitempty"`    // a second tag zeta9 (sorting after rel1) that the receiver does not have or has at the same value
-	Shadow   bool    `json:"shadow,omitempty"`   // merge/pull: a second local branch a/<name> exists whose name ends with the merged branch's name
-	TagRel   string  `json:"tag_rel,omitempty"`   // relation forced on the tag: clobber = the receiver's tag sits on an ancestor of the sender's
-	FailFrom bool    `json:"fail_from,omitempty"` // every write from FailAt on fails (disk full) instead of one
+	Op           string      `json:"op"` // fetch | push | pull | merge | fetch-pkg
+	N            int         `json:"n"`
+	BaseRows     int         `json:"base_rows"`
+	Branches     int         `json:"branches"`
+	Depth        int         `json:"depth"`
+	Force        string      `json:"force"` // "" | global | refspec
+	MaxPack      uint64      `json:"max_pack"`
+	HavesRT      int         `json:"haves_rt"`
+	Tags         bool        `json:"tags"`
+	FF           string      `json:"ff"`                      // merge mode: "" | no-ff | ff-only
+	Slow         bool        `json:"slow"`                    // server trickles packfiles one byte per flush
+	Rel          string      `json:"rel,omitempty"`           // relation forced on the first branch
+	Shape        [][]int     `json:"shape,omitempty"`         // explicit history shape; the single branch is "new" at the last commit
+	All          bool        `json:"all,omitempty"`           // fetch --all: the refspecs come from the remote's configuration
+	Narrow       bool        `json:"narrow,omitempty"`        // fetch: only the first branch's refspec is given; other branches and tags exist on the remote
+	TagSrc       string      `json:"tag_src,omitempty"`       // push: how the tag's source is spelled: "" (refs/tags/x) | short (x:refs/tags/x) | bare (x) | head (refs/heads/b0:refs/tags/x)
+	FailAt       int         `json:"fail_at,omitempty"`       // C09: a first attempt whose FailAt-th receiver-side store write fails, then the judged attempt
+	RevertTo     map[int]int `json:"revert_to,omitempty"`     // history: commit i carries the table of the older commit RevertTo[i]
+	PreMid       int         `json:"pre_mid,omitempty"`       // Pre: the earlier position of the branch (0 = pick a random ancestor)
+	Pre          string      `json:"pre,omitempty"`           // fetch: "shallow-fetch" = an earlier `fetch --depth 1` of an ancestor of the branch left shallow commits behind
+	ShallowLocal int         `json:"shallow_local,omitempty"` // push: this many non-tip commits of the pushed history lack their table locally (a shallow clone)
+	Tags2        bool        `json:"tags2,omitempty"`         // a second tag zeta9 (sorting after rel1) that the receiver does not have or has at the same value
+	Shadow       bool        `json:"shadow,omitempty"`        // merge/pull: a second local branch a/<name> exists whose name ends with the merged branch's name
+	TagRel       string      `json:"tag_rel,omitempty"`       // relation forced on the tag: clobber = the receiver's tag sits on an ancestor of the sender's
+	FailFrom     bool        `json:"fail_from,omitempty"`     // every write from FailAt on fails (disk full) instead of one
 }
 
 type branchPlan struct {
@@ -150,7 +154,7 @@ var netRelations = []string{"equal", "remote-ahead", "remote-ahead", "remote-beh
 // the receiver's refs are local remote-tracking refs; for push the sender is the local repository.
 func buildNet(c *fw.Case, env *fw.Env, p *netParams, rng *rand.Rand) (*netWorld, error) {
 	w := &netWorld{all: mon.NewMemStore()}
-	h, err := buildHistory(w.all, rng, histOpts{N: p.N, BaseRows: p.BaseRows, Roots: 2, Parents: p.Shape})
+	h, err := buildHistory(w.all, rng, histOpts{N: p.N, BaseRows: p.BaseRows, Roots: 2, Parents: p.Shape, RevertTo: p.RevertTo})
 	if err != nil {
 		return nil, err
 	}
